@@ -77,6 +77,20 @@ func runC06(k *kernel.K) {
 	}
 	mc.SetValidity(validity)
 	mc.SetOrganization(org)
+	// Concurrent issuance: in some runs every certificate issuance parks at the yield points inside
+	// cert() (after the cache miss, before signing) and is released in tape order, so that several
+	// handshakes are inside cert() at the same moment.
+	k.AddSource(k.GateSource)
+	parkCerts := w.Chance(1, 2)
+	gateN := 0
+	mitm.VerifYieldHook = func(site string) {
+		if parkCerts {
+			gateN++
+			k.Probe("issuance_parked_" + site)
+			k.Park(fmt.Sprintf("%s#%d", site, gateN))
+		}
+	}
+	defer func() { mitm.VerifYieldHook = nil }()
 
 	names := []string{"alpha.test", "beta.example.test", "x-1.y2.test"}
 	type sp struct{ spelling, hostArg, sni, expect string }
@@ -256,6 +270,8 @@ func runC06(k *kernel.K) {
 		}
 		return true
 	})
+	k.Drain()
+	k.ReleaseAll()
 	k.Drain()
 	checkDone()
 	for _, h := range hss {
